@@ -127,15 +127,64 @@ Definition show_model (r : dres rst) : str :=
 Definition parse (src : str) : option Ast.document :=
   match parse_document impl_flags impl_cfg src with POk d _ => Some d | _ => None end.
 
-Definition run_model (src : str) : str :=
-  match parse src with
-  | Some d => show_model (resolve_document [] empty_types d)
-  | None => L"PARSE-ERR"
+(** A dependency package is given as its own source text (WIT text is WAC text): it is resolved / denoted
+    first and its interfaces and worlds become the table of external items, keyed by the path text
+    [ns:pkg/name@version]. *)
+Definition dep_model (dsrc : str) : option (list (str * ty) * types) :=
+  match dsrc with
+  | [] => Some ([], empty_types)
+  | _ =>
+    match parse dsrc with
+    | Some d =>
+      match resolve_document [] empty_types d with
+      | DOk s =>
+        let pn := Ast.pd_package (Ast.doc_directive d) in
+        Some (flat_map (fun kv => match snd kv with
+                                  | TInterface _ | TWorld _ => [(item_id pn (fst kv), snd kv)]
+                                  | _ => []
+                                  end) (r_root s), r_types s)
+      | _ => None
+      end
+    | None => None
+    end
   end.
-Definition run_den (src : str) : str :=
-  match parse src with
-  | Some d => match den_document [] d with Some l => L"OK " ++ show_defs l | None => L"NONE" end
-  | None => L"PARSE-ERR"
+Definition dep_den (dsrc : str) : option env :=
+  match dsrc with
+  | [] => Some []
+  | _ =>
+    match parse dsrc with
+    | Some d =>
+      match den_document [] d with
+      | Some l =>
+        let pn := Ast.pd_package (Ast.doc_directive d) in
+        Some (flat_map (fun kv => match snd kv with
+                                  | XTInst e => [(wit_id pn (fst kv), SIface (Some (wit_id pn (fst kv))) e)]
+                                  | XTComp i e => [(wit_id pn (fst kv), SWorld i e)]
+                                  | _ => []
+                                  end) l)
+      | None => None
+      end
+    | None => None
+    end
+  end.
+
+Definition run_model (dsrc src : str) : str :=
+  match dep_model dsrc with
+  | None => L"BAD-DEP"
+  | Some (ext, t0) =>
+    match parse src with
+    | Some d => show_model (resolve_document ext t0 d)
+    | None => L"PARSE-ERR"
+    end
+  end.
+Definition run_den (dsrc src : str) : str :=
+  match dep_den dsrc with
+  | None => L"BAD-DEP"
+  | Some ext =>
+    match parse src with
+    | Some d => match den_document ext d with Some l => L"OK " ++ show_defs l | None => L"NONE" end
+    | None => L"PARSE-ERR"
+    end
   end.
 
 Extraction "../build/c05/model.ml" run_model run_den N.of_nat.
